@@ -660,7 +660,7 @@ def write_evidence(prop, tier, master, tot, wall, wall_runs, nviol, replays, n_f
                        for f, sp, n in tot.get("strata", [])},
         "stratified_rule": ("stratified runs decode their index into one cell of a finite product "
                             "space (dst/strat.py: hist<k> = grid class x every history of <= k letters "
-                            "over a 30-letter edit/solve/fault alphabet on two variables sharing one BC "
+                            "over a 31-letter edit/solve/fault alphabet on two variables sharing one BC "
                             "object; bc12/bc3 = class x periodic pattern per axis x {D,N,R} per side; "
                             "algebra = {cell,face} x operator x operand kinds x class; builders = "
                             "builder x class; terms = ordered term lists x solver seam x class; steps "
